@@ -540,6 +540,18 @@ def execute(plan: dict[str, Any]) -> dict[str, Any]:
                         f"fresh-process parse gives {_short(mine)} but via one in-memory read it gives "
                         f"{_short(pref)}")
         fr = plan.get("fresh")
+        import sys as _sys
+
+        if not fr and _sys.flags.optimize:
+            # this launcher runs under python -O / -OO: one operation per run is also computed in
+            # a fresh interpreter in the DEFAULT mode (what a text yields must not depend on the
+            # interpreter mode); an operation on a text with an open note is preferred
+            pick = [0, 0]
+            for ci_, ops_ in enumerate(plan["clients"]):
+                for k_, op_ in enumerate(ops_):
+                    if " = N 7 " in corpus[op_["text"]]["text"]:
+                        pick = [ci_, k_]
+            fr = {"op": pick, "hashseed": 1 + int(plan["seed"]) % 2147483000, "flavour": "default"}
         if fr:
             ci, k = fr["op"]
             if ci < len(plan["clients"]) and k < len(plan["clients"][ci]):
